@@ -300,6 +300,8 @@ def run(ctx, rep):
     check_memo_keys(ctx, rep)
     check_flag_clears(ctx, rep)
     check_shared_flags(ctx, rep)
+    if check_flag_cleared_after_the_refresh(ctx, rep) < 15:
+        rep.incomplete('C11.S', 'flags-cleared-last', '', 'fewer than 15 flag-guarded refresh blocks found')
     check_cache_values(ctx, rep)
     rep.rule('C11.K', "a callable model whose value depends on an argument of the call (not only on its parameters) does not inherit the argument-blind cache of CallableModel.__call__")
     check_call_arguments(ctx, rep)
@@ -354,6 +356,42 @@ def check_flag_clears(ctx, rep, rule='C11.F'):
                               f"{cname}.{fn.name} clears self.{flag} although every refresh in the guarded block ({[norm_text(a)[:40] for a in skipped]}) sits under a further "
                               f"condition: on the path that skips it the cache is declared fresh without having been recomputed")
     rep.analysed[f'flag_clear_sites[{rule}]'] = n
+    return n
+
+
+def check_flag_cleared_after_the_refresh(ctx, rep, rule='C11.S', only=None):
+    """`if self.flag: <refresh>; self.flag = False`: the flag goes down AFTER the value it stands for has been stored.  Cleared first, an evaluation that raises (a parameter
+    pushed out of its domain, a Cholesky failure) leaves the flag down over the OLD value: the next call returns it as if it were current.  Every flag-guarded refresh of the
+    package clears its flag last (18 sites); a statement with a call after the clear, inside the guarded block, is reported."""
+    n = 0
+    for mname, m in sorted(ctx.prog.modules.items()):
+        if '.cli' in mname or not mname.startswith('torchtree'):
+            continue
+        if only is not None and not only(m):
+            continue
+        for fn in ast.walk(m.tree):
+            if not isinstance(fn, ast.FunctionDef):
+                continue
+            cl = getattr(fn, '_parent', None)
+            scope = f"{cl.name}.{fn.name}" if isinstance(cl, ast.ClassDef) else fn.name
+            for iff in ast.walk(fn):
+                if not isinstance(iff, ast.If):
+                    continue
+                flags = {self_attr(x) for x in ast.walk(iff.test) if self_attr(x)}
+                clear = None
+                for i, st in enumerate(iff.body):
+                    if isinstance(st, ast.Assign) and any(self_attr(t) in flags for t in st.targets) and isinstance(st.value, ast.Constant) and st.value.value is False:
+                        clear = i
+                        break
+                if clear is None:
+                    continue
+                n += 1
+                flag = next(self_attr(t) for t in iff.body[clear].targets if self_attr(t) in flags)
+                after = [st for st in iff.body[clear + 1:] if any(isinstance(c, ast.Call) for c in ast.walk(st))]
+                rep.check(rule, f"{mname.replace('torchtree.', '')}::{scope}::self.{flag}::cleared-after-the-refresh", not after, where(m, after[0] if after else iff.body[clear]),
+                          {'statements_after_the_clear': [norm_text(a)[:60] for a in after]},
+                          f"{scope} clears self.{flag} and THEN runs `{norm_text(after[0])[:60] if after else ''}`: if that evaluation raises, the flag stays down over the value of the "
+                          f"previous state and the next call hands it out as current (a fresh object would raise again)")
     return n
 
 
